@@ -22,6 +22,8 @@ ASSUMPTIONS = ['basic lexer is compared on prefix-free fixed-string terminals on
 FAMILIES = {
     'tok': (gramgen.Opts(terms='tok', max_rules=5, templates=True, ignore_in_rules=True), ('basic', 'dynamic', 'dynamic_complete')),
     'ovl': (gramgen.Opts(terms='ovl', max_rules=4, ignore_in_rules=True), ('dynamic', 'dynamic_complete')),
+    # anonymous string literals, including words whose upper-case form is the name lark derives for a punctuation literal ("plus" / "+")
+    'anon': (gramgen.Opts(terms='tok', max_rules=4, anon_lits=True, tok_sets=gramgen.TOK_SETS + gramgen.NAMECLASH_SETS * 2), ('basic', 'dynamic', 'dynamic_complete')),
     're': (gramgen.Opts(terms='re', max_rules=4, anon_re=True), ('dynamic', 'dynamic_complete')),
 }
 MODE = {'basic': 'exact', 'dynamic': 'longest', 'dynamic_complete': 'exact'}
@@ -181,7 +183,9 @@ def phases(tier):
     if tier == 'thorough':
         return [Phase('tok', 'hypothesis', strategy=strat('tok', 16, 6), max_examples=200000),
                 Phase('ovl', 'hypothesis', strategy=strat('ovl', 14, 6), max_examples=120000),
-                Phase('re', 'hypothesis', strategy=strat('re', 14, 6), max_examples=200000)]
+                Phase('re', 'hypothesis', strategy=strat('re', 14, 6), max_examples=200000),
+                Phase('anonymous-literals', 'hypothesis', strategy=strat('anon', 16, 6), max_examples=100000)]
     return [Phase('tok', 'hypothesis', strategy=strat('tok', 10, 4), max_examples=24000),
             Phase('ovl', 'hypothesis', strategy=strat('ovl', 10, 4), max_examples=16000),
-            Phase('re', 'hypothesis', strategy=strat('re', 10, 4), max_examples=24000)]
+            Phase('re', 'hypothesis', strategy=strat('re', 10, 4), max_examples=24000),
+            Phase('anonymous-literals', 'hypothesis', strategy=strat('anon', 12, 4), max_examples=12000)]
